@@ -71,6 +71,9 @@ func main() {
 	if *budget > 0 {
 		deadline = time.Now().Add(time.Duration(*budget) * time.Second)
 	}
+	if *drv != "" {
+		driverPath = *drv
+	}
 	if *replay != "" {
 		res := NewResult(*prop, "replay", *seed, os.TempDir())
 		b, err := os.ReadFile(*replay)
